@@ -18,6 +18,9 @@ type cfg08 struct {
 	updatesOnly bool
 	script      []wop
 	stats       bool
+	// acl: subscriber A is an all-targets subscriber that is denied t2, the
+	// writer updates t2 (every response for it is dropped), then everybody idles
+	acl bool
 }
 
 func configs08(tier string) []xplore.Config {
@@ -39,7 +42,8 @@ func configs08(tier string) []xplore.Config {
 	for i := 0; i < 1500; i++ {
 		many = append(many, wop{"upd", fmt.Sprintf("a/l%d", i)})
 	}
-	out = append(out, xplore.Config{Name: "A stall=permanent updates_only=true | B normal | W=1500 distinct leaves", Bound: 0, Data: cfg08{"permanent", true, many, false}})
+	out = append(out, xplore.Config{Name: "A stall=permanent updates_only=true | B normal | W=1500 distinct leaves", Bound: 0, Data: cfg08{stall: "permanent", updatesOnly: true, script: many}})
+	out = append(out, xplore.Config{Name: "A stall=never on * with an ACL denying t2 | B normal | W(t2)=upd a/b;upd a/b then idle", Bound: bound + 1, Data: cfg08{stall: "never", script: []wop{{"upd", "a/b"}, {"upd", "a/b"}}, acl: true}})
 	for _, st := range []string{"never", "transient", "permanent", "slow"} {
 		for _, uo := range []bool{true, false} {
 			for si, sc := range scripts {
@@ -47,15 +51,67 @@ func configs08(tier string) []xplore.Config {
 				if si == 0 && tier != "thorough" {
 					b = 2
 				}
-				out = append(out, xplore.Config{Name: fmt.Sprintf("A stall=%s updates_only=%v | B normal | W=%s", st, uo, scriptName(sc)), Bound: b, Data: cfg08{st, uo, sc, (tier == "thorough" && si == 0) || (st == "permanent" && si == 1)}})
+				out = append(out, xplore.Config{Name: fmt.Sprintf("A stall=%s updates_only=%v | B normal | W=%s", st, uo, scriptName(sc)), Bound: b, Data: cfg08{stall: st, updatesOnly: uo, script: sc, stats: (tier == "thorough" && si == 0) || (st == "permanent" && si == 1)}})
 			}
 		}
 	}
 	return out
 }
 
+// run08acl: a subscriber that never stalls is never terminated - also when the
+// last thing its sender handled was a response the ACL dropped and then nothing
+// happens for longer than the send time-out.
+func run08acl(cfg xplore.Config, d cfg08, ch vrt.Chooser, trace bool) (xplore.Outcome, *vrt.Result) {
+	var out xplore.Outcome
+	res := vrt.Run(ch, vrt.Options{Reverse: cfg.Reverse, Trace: trace}, func() {
+		a := &acl{allowed: map[string]bool{"t1": true, "t2": false}}
+		w := newWorld([]string{"t1", "t2"}, subscribe.WithACL(a))
+		setupInitial(w)
+		sa := newStream(subSpec{target: "*", paths: []string{"a"}, mode: pb.SubscriptionList_STREAM, user: "u"})
+		w.streams = []*fstream{sa}
+		vrt.GoNamed("subA", func() {
+			sa.status = w.srv.Subscribe(sa)
+			sa.returned = true
+			sa.cancel()
+		})
+		wdone := false
+		vrt.GoNamed("writer-t2", func() {
+			for _, o := range d.script {
+				w.apply("t2", o)
+			}
+			wdone = true
+		})
+		settle() // quiescence, then every timer still armed expires: time passes, nothing is being sent
+		out.Nontrivial = true
+		out.Obs = fmt.Sprintf("A:%v %s", sa.status, renderLog(sa.log))
+		if !wdone {
+			viol(&out, "writer-blocked", "the writer is blocked: %v", vrt.ParkedInfo())
+		}
+		if sa.returned {
+			viol(&out, "stream-ended", "A never stalled, yet its subscription ended with %v after idling; log: %s", sa.status, renderLog(sa.log))
+		}
+		for _, r := range sa.log {
+			if n := r.GetUpdate(); n != nil && n.GetPrefix().GetTarget() == "t2" {
+				viol(&out, "denied-target-data-sent", "a response for the denied target t2 was sent: %s", renderLog([]*pb.SubscribeResponse{r}))
+			}
+		}
+		sa.cancel()
+		vrt.Idle()
+		if !vrt.AllDone() {
+			viol(&out, "deadlock", "threads never finished after cancel: %v", vrt.ParkedInfo())
+		}
+	})
+	if res.Aborted != "" {
+		viol(&out, hutil.AbortClass(res.Aborted, res.Panic), "%s %s", res.Aborted, strings.Join(res.Parked, "; "))
+	}
+	return out, res
+}
+
 func run08(cfg xplore.Config, ch vrt.Chooser, trace bool) (xplore.Outcome, *vrt.Result) {
 	d := cfg.Data.(cfg08)
+	if d.acl {
+		return run08acl(cfg, d, ch, trace)
+	}
 	var out xplore.Outcome
 	maxSteps := 0
 	if len(d.script) > 100 {
